@@ -1,17 +1,12 @@
 #!/bin/bash
-# applies every behaviour-preserving refactoring under /verif/benign to /repo in turn and requires every claimed check to stay silent
-cd /repo || exit 2
-rc=0; mkdir -p /tmp/trymut-verif; cp /verif/known_findings.json /tmp/trymut-verif/
-for d in /verif/benign/*/; do
-  n=$(basename $d)
-  git diff --quiet || { echo "/repo not clean"; exit 2; }
-  git apply $d/patch.diff || { echo "$n: PATCH DOES NOT APPLY"; rc=1; continue; }
-  (cd module && GOFLAGS=-mod=mod GOPROXY=off GOSUMDB=off GOTOOLCHAIN=local go build ./x/... ) || { echo "$n: does not build"; rc=1; }
-  for p in $(python3 -c "import json;print(' '.join(c['property_id'] for c in json.load(open('/verif/MANIFEST.json'))['checks']))"); do
-    out=$(MHUBSA_VERIF=/tmp/trymut-verif /verif/bin/mhubsa -property $p 2>&1)
-    if echo "$out" | grep -q "^VIOLATION\|infrastructure"; then echo "$n: FALSE ALARM in $p"; echo "$out" | grep -B1 "^VIOLATION" | grep -v "^VIOLATION\|^--" | cut -c1-240; rc=1; fi
-  done
-  git checkout -- .
-  echo "$n: done"
-done
+# applies every behaviour-preserving refactoring under /verif/benign to a scratch worktree of /repo (under /tmp,
+# removed afterwards) and requires every claimed check to stay silent.  Four patches are checked in parallel.
+cd /verif || exit 2
+ls -d benign/*/ | xargs -n1 basename > /tmp/benign-ids.txt
+run_slot() { s=$1; shift; for b in "$@"; do echo "== $b"; tools/runwt.sh /verif/benign/$b/patch.diff all b$s; done > /tmp/benign-run-b$s.log 2>&1; }
+ids=($(cat /tmp/benign-ids.txt)); n=${#ids[@]}
+for s in 1 2 3 4; do run_slot $s $(for ((i=s-1;i<n;i+=4)); do echo ${ids[$i]}; done) & done; wait
+cat /tmp/benign-run-b?.log | grep -v "^      "
+rc=0; grep -q "DETECTED\|INFRA\|DOES NOT APPLY" /tmp/benign-run-b?.log && rc=1
+for s in 1 2 3 4; do git -C /repo worktree remove --force /tmp/wt-run-b$s 2>/dev/null; rm -rf /tmp/trymut-verif-b$s; done
 exit $rc
